@@ -187,9 +187,12 @@ def gen_tb_one(rng, ttl=60, scale=None):
                 spec = "s," + ck_valid(h)
             elif k < 0.6:
                 spec = "s,h0a0b,cP:id"
-            elif k < 0.65:
-                spec = ck_valid(rng.choice(hosts))                      # cookie of another tuple
-            elif k < 0.7:
+            elif k < 0.68:
+                # cookie issued for another tuple: another host, or the same host with one field changed / zeroed
+                m_, s_, c_ = h
+                spec = ck_valid(rng.choice(hosts + [(m_, s_, 0), (m_, 0, c_), (m_, 0, 0), (m_, c_, s_), (m_, s_, c_ + 1),
+                                                    (m_, s_ + 1, c_), (m_[:10] + "00", s_, c_), ("000000000000", s_, c_)]))
+            elif k < 0.72:
                 spec = ck_valid(h, dt=rng.choice([ttl, ttl + 1, ttl - 1, 10 * ttl, -3]))
             elif k < 0.75:
                 spec = ck_valid(h, mut=rng.choice(["t35", "t0", "t32", "a00", "x0.1", "x35.1", "x33.128", "x31.255"]))
@@ -299,7 +302,7 @@ def signature(case, impl, models):
             return "padt-from-foreign-tuple"
         if kind == "S" and x.startswith("reach:") and y == "none":
             return "session-packet-from-foreign-tuple"
-        if kind == "R" and x.startswith("pads:0:"):
+        if (kind == "R" and x.startswith("pads:0:")) or (kind == "C" and (x == "conc:0" or x.startswith("conc:0+"))):
             m = re.search(r"n=(\d+)/", idump or "")
             full = m and int(m.group(1)) >= 65535
             return "session-id-0-when-space-full" if full else "session-id-0-after-restoring-0xffff"
